@@ -16,31 +16,154 @@
 From TL Require Import Lib.Base Model.RustSafetyTypes.
 
 (* ------------------------------------------------------------------ attributes *)
-(* Attribute semantics on a finite catalogue (text, (marks a test function, makes the item test-only
-   configuration)).  `#[tokio::test]` expands to `#[test]`; `cfg(all(test, ..))` implies `test`;
-   `cfg(not(test))`, `cfg(any(test, ..))`, a feature called "testing", a lint name or a doc string
-   mentioning tests do not make the item test code. *)
+(* Attribute semantics, computed from the attribute text (no catalogue): the text is tokenised (identifiers, parentheses,
+   commas, string literals with escapes, other punctuation) and read as `#[` path [ `(` .. `)` | `=` literal ] `]`.
+   - an attribute marks a test function when the last segment of its path is `test`: #[test], #[tokio::test],
+     #[async_std::test], #[tokio::test(flavor = "multi_thread")]  (they expand to #[test]);
+   - an attribute makes its item test-only configuration when it is #[cfg(P)] and P can only hold in a test build:
+     P is evaluated in Kleene's three-valued logic with every other option unknown, once with `test` false (v0) and
+     once with `test` true (v1); the item is test-only when v0 is definitely false and v1 is not definitely false.
+     So cfg(test), cfg(all(test, feature = "slow")), cfg(any(test)), cfg(not(not(test))) are test-only;
+     cfg(not(test)), cfg(any(test, debug_assertions)), cfg(feature = "testing"), cfg(all(test, not(test))), cfg(any()),
+     cfg_attr(test, ..), a lint name or a doc string mentioning tests are not. *)
+(* Kleene's three-valued logic: Some b = definitely b, None = unknown *)
+Definition k3 := option bool.
+Definition k3_all (l : list k3) : k3 :=
+  if existsb (fun v => match v with Some false => true | _ => false end) l then Some false
+  else if forallb (fun v => match v with Some true => true | _ => false end) l then Some true else None.
+Definition k3_any (l : list k3) : k3 :=
+  if existsb (fun v => match v with Some true => true | _ => false end) l then Some true
+  else if forallb (fun v => match v with Some false => true | _ => false end) l then Some false else None.
+Definition k3_not (v : k3) : k3 := option_map negb v.
+
+(* a cfg predicate at the head of the token list: ((value with test false, value with test true), remaining tokens) *)
+Definition cfg_combine (op : string) (vs : list (k3 * k3)) : k3 * k3 :=
+  if String.eqb op "all" then (k3_all (map fst vs), k3_all (map snd vs))
+  else if String.eqb op "any" then (k3_any (map fst vs), k3_any (map snd vs))
+  else match vs with [(a, b)] => (k3_not a, k3_not b) | _ => (None, None) end.
+Fixpoint cfg_pred (fuel : nat) (ts : list atok) : option ((k3 * k3) * list atok) :=
+  match fuel with
+  | 0 => None
+  | S f =>
+    match ts with
+    | AId op :: ALP :: r =>
+      if smem op ["all"; "any"; "not"] then
+        match cfg_list f r with
+        | Some (vs, r') => if String.eqb op "not" && negb (List.length vs =? 1) then None else Some (cfg_combine op vs, r')
+        | None => None
+        end
+      else None
+    | AId x :: AOther e :: AStr :: r => if Ascii.eqb e "="%char then Some ((None, None), r) else None
+    | AId x :: r => Some (if String.eqb x "test" then (Some false, Some true) else (None, None), r)
+    | _ => None
+    end
+  end
+with cfg_list (fuel : nat) (ts : list atok) : option (list (k3 * k3) * list atok) :=
+  match fuel with
+  | 0 => None
+  | S f =>
+    match ts with
+    | ARP :: r => Some ([], r)
+    | _ => match cfg_pred f ts with
+           | Some (v, AComma :: r) => match cfg_list f r with Some (vs, r') => Some (v :: vs, r') | None => None end
+           | Some (v, ARP :: r) => Some ([v], r)
+           | _ => None
+           end
+    end
+  end.
+Definition test_only (v : k3 * k3) : bool :=
+  match v with (Some false, Some false) => false | (Some false, _) => true | _ => false end.
+
+(* a::b::c at the head of the token list: (last segment, remaining tokens) *)
+Fixpoint attr_path (ts : list atok) : option (string * list atok) :=
+  match ts with
+  | AId x :: r =>
+    match r with
+    | AOther c1 :: AOther c2 :: r2 =>
+      if Ascii.eqb c1 ":"%char && Ascii.eqb c2 ":"%char then attr_path r2 else Some (x, r)
+    | _ => Some (x, r)
+    end
+  | _ => None
+  end.
+
+(* `#[` meta `]`: the tokens of meta *)
+Definition attr_meta (text : string) : option (list atok) :=
+  match attr_lex text 0 "" with
+  | AOther h :: AOther b :: r =>
+    if Ascii.eqb h "#"%char && Ascii.eqb b "["%char then
+      match rev r with
+      | AOther e :: m => if Ascii.eqb e "]"%char then Some (rev m) else None
+      | _ => None
+      end
+    else None
+  | _ => None
+  end.
+
+Definition cfg_of (r : list atok) : option (k3 * k3) :=
+  match cfg_pred (2 * List.length r + 2) r with
+  | Some (v, [ARP]) => Some v
+  | _ => None
+  end.
+
+Definition attr_is_test_fn (text : string) : bool :=
+  match attr_meta text with
+  | Some m => match attr_path m with
+              | Some (name, rest) => String.eqb name "test" && match rest with [] => true | ALP :: _ => true | _ => false end
+              | None => false
+              end
+  | None => false
+  end.
+
+Definition attr_is_cfg_test (text : string) : bool :=
+  match attr_meta text with
+  | Some (AId c :: ALP :: r) =>
+    String.eqb c "cfg" && match cfg_of r with Some v => test_only v | None => false end
+  | _ => false
+  end.
+
+(* well-formed: #[path], #[path(...)], #[path = "lit"], and a cfg attribute holds exactly one predicate *)
+Definition attr_wf (text : string) : bool :=
+  match attr_meta text with
+  | Some m =>
+    match attr_path m with
+    | Some _ =>
+      match m with
+      | AId c :: ALP :: r => if String.eqb c "cfg" then match cfg_of r with Some _ => true | None => false end else true
+      | _ => true
+      end
+    | None => false
+    end
+  | None => false
+  end.
+
+(* the documented vocabulary and look-alikes with the verdicts (marks a test function, test-only configuration) the
+   semantics above gives them (Proofs/RustSafetyAttr.v::attr_catalogue_agrees) *)
 Definition attr_catalogue : list (string * (bool * bool)) :=
   [ ("#[test]", (true, false));
     ("#[tokio::test]", (true, false));
     ("#[tokio::test(flavor = ""multi_thread"")]", (true, false));
+    ("#[async_std::test]", (true, false));
     ("#[cfg(test)]", (false, true));
     ("#[cfg(all(test, feature = ""slow""))]", (false, true));
+    ("#[cfg(any(test))]", (false, true));
+    ("#[cfg(not(not(test)))]", (false, true));
+    ("#[cfg( test )]", (false, true));
+    ("#[cfg(all(unix, any(test, all(test, windows))))]", (false, true));
     ("#[cfg(not(test))]", (false, false));
     ("#[cfg(any(test, debug_assertions))]", (false, false));
+    ("#[cfg(all(test, not(test)))]", (false, false));
+    ("#[cfg(any())]", (false, false));
     ("#[cfg(feature = ""testing"")]", (false, false));
+    ("#[cfg_attr(test, inline)]", (false, false));
+    ("#[test_case(1)]", (false, false));
     ("#[allow(clippy::tests_outside_test_module)]", (false, false));
     ("#[doc = ""helpers for cfg(test) builds""]", (false, false));
+    ("#[doc = ""a \"" test""]", (false, false));
     ("#[inline]", (false, false));
     ("#[allow(dead_code)]", (false, false));
     ("#[should_panic]", (false, false));
     ("#[ignore]", (false, false));
     ("#[must_use]", (false, false)) ].
-
-Definition attr_is_test_fn (text : string) : bool :=
-  match assoc text attr_catalogue with Some (b, _) => b | None => false end.
-Definition attr_is_cfg_test (text : string) : bool :=
-  match assoc text attr_catalogue with Some (_, b) => b | None => false end.
 
 (* an item carries every attribute written before it; comments in between do not matter *)
 Definition has_attr (p : string -> bool) (pre : list sib) : bool :=
@@ -161,26 +284,31 @@ Definition spec_blocking (ls : srclines) (o : options) (c : ctx) (k : kind) (cs 
   end.
 
 (* ------------------------------------------------------------------ the three commands *)
-Definition spec_unwrap_report (ls : srclines) (c : config) (file : list node) : list rep :=
+(* each linter has the documented `enabled` option (default true): switched off it reports nothing *)
+Definition spec_unwrap_scan (ls : srclines) (c : config) (file : list node) : list rep :=
   walk_file spec_push (spec_unwrap ls (c_unwrap c)) ctx0 file.
-Definition spec_clone_report (ls : srclines) (c : config) (file : list node) : list rep :=
+Definition spec_clone_scan (ls : srclines) (c : config) (file : list node) : list rep :=
   walk_file spec_push (spec_clone ls (c_clone c)) ctx0 file.
-Definition spec_blocking_report (ls : srclines) (c : config) (file : list node) : list rep :=
+Definition spec_blocking_scan (ls : srclines) (c : config) (file : list node) : list rep :=
   walk_file spec_push (spec_blocking ls (c_blocking c)) ctx0 file.
+
+Definition spec_unwrap_report (ls : srclines) (c : config) (file : list node) : list rep :=
+  if opt (c_unwrap c) "enabled" true then spec_unwrap_scan ls c file else [].
+Definition spec_clone_report (ls : srclines) (c : config) (file : list node) : list rep :=
+  if opt (c_clone c) "enabled" true then spec_clone_scan ls c file else [].
+Definition spec_blocking_report (ls : srclines) (c : config) (file : list node) : list rep :=
+  if opt (c_blocking c) "enabled" true then spec_blocking_scan ls c file else [].
 
 Definition spec_report (ls : srclines) (c : config) (file : list node) : list rep :=
   spec_unwrap_report ls c file ++ spec_clone_report ls c file ++ spec_blocking_report ls c file.
 
 (* ------------------------------------------------------------------ domain of the generated inputs *)
-(* where the finite attribute catalogue is meaningful: attribute texts are catalogued, and attributes that mark a
-   test function (#[test] ...) sit on functions only *)
+(* attribute texts are well-formed (attr_wf), and attributes that mark a test function (#[test] ...) sit on
+   functions only *)
 Definition sib_ok (on_fn : bool) (s : sib) : bool :=
   match s with
   | SComment => true
-  | SAttr t => match assoc t attr_catalogue with
-               | Some (tf, ct) => on_fn || negb tf
-               | None => false
-               end
+  | SAttr t => attr_wf t && (on_fn || negb (attr_is_test_fn t))
   end.
 Fixpoint node_domain (n : node) : bool :=
   match n with
